@@ -723,7 +723,7 @@ impl Prop for C04 {
             seam_bias: 0.4,
             max_obst: 2,
             rng_goal: 0.4,
-            p_so3_signflip: 0.1,
+            p_so3_signflip: 0.25,
             p_retune: 0.1,
             // a third of the cases are histories; in 60% of those the second problem lives in
             // its own, tighter space
